@@ -181,8 +181,11 @@ class SimComp(TimeComponent):
 
     def _connect(self, start_time):
         s = self.spec
+        # "info_after": the metadata of this input is only known once the initial data of the named other inputs has
+        # arrived (it is derived from what the component learnt from them)
         ex = {i["name"]: Info(time=self.time, grid=NoGrid(), units=i.get("units"))
-              for i in s["inputs"] if not i.get("info_at_init", True)}
+              for i in s["inputs"] if not i.get("info_at_init", True) and
+              all(self.connector.in_data.get(n) is not None for n in i.get("info_after", ()))}
         pi = {o["name"]: Info(time=self.time, grid=NoGrid(), units=o.get("units", ""))
               for o in s["outputs"] if not o.get("info_at_init", True) and not o.get("static")}
         pd = {o["name"]: self.out_value(oi, 0) for oi, o in enumerate(s["outputs"])}
@@ -303,7 +306,9 @@ class SimPull(Component):
             if self.connector is None or not self.connector.all_data_pulled:
                 return None
             vals = [mag(self.connector.in_data[i["name"]]) for i in self.spec["inputs"]]
-        return float(o["base"] + sum(vals))
+        # "timefn": a generator-like pull-based source - its value is a function of the requested time, so it can
+        # serve any request in any order
+        return float(o["base"] + sum(vals)) + float(self.spec.get("timefn", 0)) * float(tk)
 
 
 class SimSink(Component):
